@@ -398,6 +398,23 @@ def run_unit(unit, rng, ctx):
             if n_known == 0 and nk2 == 0:
                 ctx.check(np.array_equal(tr2.states, states) and np.array_equal(tr2.inner_states, inner), f'{what}: a second call with the same argument objects gives different states', wit)
             ctx.count('second_calls_with_same_arguments')
+        if unit['i'] % 3 == 1 and mode in ('float', 'dict'):
+            # ... and a further call on the same trajectory and the same sites object with OTHER settings
+            # (smaller radius, other inner fraction) answers for those settings
+            q = float(rng.choice([0.6, 0.8]))
+            arg3 = {k_: v_ * q for k_, v_ in arg.items()} if isinstance(arg, dict) else float(arg) * q
+            f3 = float(rng.choice([x for x in (1.0, 0.7, 0.4) if x != f]))
+            with warnings.catch_warnings():
+                warnings.simplefilter('ignore')
+                try:
+                    tr3 = traj.transitions_between_sites(sites=sites, floating_specie='Li', site_radius=arg3, site_inner_fraction=f3)
+                except ValueError as exc:
+                    tr3 = None
+                    if not ('need at least one array' in str(exc) or 'No ' in str(exc)):
+                        ctx.check(False, f'{what}: a further call with site_radius x{q}, inner fraction {f3} raised ValueError: {exc}', wit)
+            if tr3 is not None:
+                check_assignment(ctx, what + f' [further call on the same objects: radius x{q}, inner fraction {f3}]', m, pos, sys_.site_frac, radii * q, f3, np.asarray(tr3.states), np.asarray(tr3.inner_states), disjoint, cutoff * q, {**wit, 'site_radius': arg3, 'inner_fraction': f3}, groups)
+                ctx.count('further_calls_with_other_settings_on_the_same_objects')
     ctx.count('atom_frames_checked', states.size)
     ctx.count(f'K1_atom_frames:{sys_.kind}', n_known)
     ctx.count('assigned_through_lattice_image', via)
